@@ -30,8 +30,22 @@ POSITIONS = {
     "compare_right": "v = 3 < {E}", "boolop_right": "v = 1 and {E}", "call_kw_in_return": "return dict(a={E})", "dictcomp_value": "v = {k: {E} for k in v}",
     "genexp_arg": "print(sum({E} for k in v))", "call_on_call": "v = {E}.get(1)(2)", "starstar": "print(**{E})", "selfcall_in_selfcall_attr": "v = self.sink({E}).real",
     "return_tuple": "return 1, {E}", "slice": "v = v[{E}:]", "call_func_attr": "v = {E}.append(1)", "global_stmt_after": "v = 0\n{I}w = {E}",
+    # positions reported by a second-round reviewer of the unchanged tree
+    "yield_from": "yield from {E}", "dict_unpack": "v = {**{E}}", "list_unpack": "v = [*{E}]", "set_unpack": "v = {*{E}, 1}", "tuple_unpack": "v = (*{E}, 1)",
+    "with_as_target": "with open(v) as {A}:\n{I}    pass", "for_target": "for {A} in v:\n{I}    pass", "parenthesised": "v = ({E})", "match_value_pattern": "match v:\n{I}    case {A}:\n{I}        pass",
+    "nested_def_decorator": "@{E}\n{I}def inner():\n{I}    return 1", "nested_class_base": "class Local({E}):\n{I}    pass", "nested_class_keyword": "class Local(metaclass={E}):\n{I}    pass",
+    "typed_default_param": "def inner(q: int = {E}):\n{I}    return q", "return_annotation_inner": "def inner() -> {E}:\n{I}    return 1", "tuple_assign_target": "{A}, w = 1, 2",
+    "chained_assign": "w = u = {E}", "augassign_value": "v += {E}", "assert_msg": "assert v, {E}", "raise_from": "raise ValueError(1) from {E}", "except_type": "try:\n{I}    pass\n{I}except {E}:\n{I}    pass",
+    "while_else": "while v:\n{I}    break\n{I}else:\n{I}    w = {E}", "elif3_body": "if v == 1:\n{I}    pass\n{I}elif v == 2:\n{I}    pass\n{I}elif v == 3:\n{I}    w = {E}", "try_else": "try:\n{I}    pass\n{I}except Exception:\n{I}    pass\n{I}else:\n{I}    w = {E}",
+    "except_star_body": "try:\n{I}    pass\n{I}except* ValueError:\n{I}    w = {E}", "case_guard": "match v:\n{I}    case 1 if {E}:\n{I}        pass", "async_for_iter": "async for k in {E}:\n{I}    pass",
+    "async_with_item": "async with {E} as fh:\n{I}    pass", "slice_upper_step": "v = v[1:{E}:2]", "conditional_lambda_default": "v = lambda q={E}: q", "print_to_file_kw": "print(1, file={E})",
+    "set_comp": "v = {{E} for k in v}", "dict_comp_key": "v = {{E}: k for k in v}", "comp_second_iter": "v = [k for j in v for k in {E}]", "comp_two_ifs": "v = [k for k in v if k if {E}]",
+    "string_format_call": "v = \"{}\".format({E})", "percent_format": "v = \"%s\" % {E}", "matmul": "v = v @ {E}", "in_operator": "v = 1 in {E}", "is_operator": "v = {E} is None",
+    "global_then_use": "global G\n{I}G = {E}", "nonlocal_free": "w = [{E}][0]", "return_parenthesised": "return ({E})", "return_await_free": "return [{E}, 2][0]",
 }
-ASYNC_ONLY = {"await"}
+ASYNC_ONLY = {"await", "async_for_iter", "async_with_item"}
+# positions whose mention is a TARGET (store / delete context): only an attribute can stand there, not a call
+TARGET_POSITIONS = tuple(k for k, v in POSITIONS.items() if "{A}" in v)
 # expression wrappers applied at random around a load-context mention (nesting of expression forms)
 WRAPS = ["self.sink({E})", "self.sink(k={E})", "len({E})", "({E}, 1)", "[{E}]", "{E}.real", "-{E}", "not {E}", "({E} + 1)", "self.items.get({E})", "(lambda: {E})()",
          "({E} if v else 0)", "str({E}).strip()", "{1: {E}}", "v[{E}]", "f\"{{E}}\"", "self.sink(self.sink({E}))", "print(end={E})"]
@@ -55,6 +69,10 @@ def gen_class(rng, idx, positions=None):
     attrs = ["a%d" % i for i in range(rng.randint(1, 5))]
     methods = []
     names = ["m%d" % i for i in range(nm)]
+    if names and rng.random() < 0.4:
+        # an attribute NAMED like a method of the class, read or written without a call (`Thread(target=self.m1)`, `self.m1 = None`): a common attribute
+        # of the methods that mention it, but not a call edge to m1
+        attrs += rng.sample(names, min(len(names), rng.randint(1, 2)))
     for i, name in enumerate(names):
         stmts = []
         for _ in range(rng.randint(0, 3)):
@@ -62,12 +80,12 @@ def gen_class(rng, idx, positions=None):
             if rng.random() < 0.3 and names:
                 callee = rng.choice(names + ["helper"])
                 expr, attr = "self.%s()" % callee, "self.%s" % rng.choice(attrs)
-                if pos in ("assign_target", "augassign", "del", "subscript_target"):
+                if pos in TARGET_POSITIONS:
                     expr = attr
             else:
                 a = rng.choice(attrs)
                 expr, attr = "self.%s" % a, "self.%s" % a
-            if pos not in ("assign_target", "augassign", "del", "subscript_target", "fstring", "fstring_spec", "fstring_nested"):
+            if pos not in TARGET_POSITIONS + ("fstring", "fstring_spec", "fstring_nested"):
                 while rng.random() < 0.35:
                     w = rng.choice(WRAPS)
                     if '"' in w and '"' in expr:
@@ -75,7 +93,10 @@ def gen_class(rng, idx, positions=None):
                     expr = w.replace("{E}", expr)
             stmts.append((pos, expr, attr))
         is_async = any(p in ASYNC_ONLY for p, _, _ in stmts) or rng.random() < 0.1
-        deco = rng.choice([None, None, None, None, "staticmethod", "classmethod", "property", "functools.wraps(print)"])
+        deco = rng.choice([None, None, None, None, "staticmethod", "classmethod", "property", "functools.wraps(print)",
+                           # stacked decorators: the exclusion must not depend on what is stacked above or below, nor on how that decorator is spelled
+                           "functools.cache\n    @staticmethod", "staticmethod\n    @functools.cache", "functools.lru_cache(maxsize=None)\n    @classmethod",
+                           "classmethod\n    @functools.wraps(print)", "functools.wraps(print)\n    @functools.wraps(len)"])
         first = "self"
         if deco == "staticmethod":
             first = "self"   # still named self on purpose: exclusion must come from the decorator
@@ -170,6 +191,9 @@ def parse_model(out, names):
 
 def run(tier, seed, replay=None):
     res = C.Result(PID, tier, seed)
+    lost_positions = set(f["signature"]["position"] for f in C.known_findings() if f.get("property") == PID and f.get("status") == "known"
+                         and (f.get("signature") or {}).get("kind") == "position")
+    usable = [p_ for p_ in POSITIONS if p_ not in lost_positions]
     rng = random.Random(seed * 1000003 + 14)
     ps = C.prove(PID)
     C.proof_coverage(res, ps, "cd /verif/lean && lake build PV.Properties.C14 && #print axioms (audit)")
@@ -184,7 +208,7 @@ def run(tier, seed, replay=None):
     for pos in POSITIONS:
         for kind in ("attr", "call"):
             expr = "self.target" if kind == "attr" else "self.m_set()"
-            if kind == "call" and pos in ("assign_target", "augassign", "del", "subscript_target"):
+            if kind == "call" and pos in TARGET_POSITIONS:
                 continue
             use = method_src("m_use", [(pos, expr, "self.target")], None, pos in ASYNC_ONLY)
             setter = method_src("m_set", [("assign_target", "self.target", "self.target")] if kind == "attr" else [("assign_value", "self.unrelated", "self.unrelated")])
@@ -218,7 +242,9 @@ def run(tier, seed, replay=None):
                 "    def uses_a(self, v=None):\n        return self._a\n\n    def uses_b(self, v=None):\n        return self._b\n")
     tags.append(("dup-method-name", "", ""))
     for i in range(nrand):
-        srcs.append("import functools\n\n" + gen_class(rng, i))
+        # random classes are built from the positions that are NOT registered as lost (each of those is run on its own in the matrix and printed as a
+        # KNOWN-FINDING there): a random class mixing a lost position with others could not be attributed
+        srcs.append("import functools\n\n" + gen_class(rng, i, positions=usable))
         tags.append(("random", "", ""))
     go = C.harness_batch("lcom", [{"Src": s} for s in srcs])
     refs = []
@@ -314,6 +340,38 @@ def run(tier, seed, replay=None):
                                   dict(info, signature=sig, lost=lost))
         if tag[0] == "matrix":
             hist["matrix_cells"] += 1
+    # ---- several files through the real CLI: the value of a class is the value it has when its file is analysed alone -------------------------------
+    import shutil
+    import tempfile
+    tmpd = tempfile.mkdtemp(prefix="pv_c14_")
+    try:
+        proj = os.path.join(tmpd, "proj")
+        os.makedirs(proj)
+        chosen = [si for si, g in enumerate(go) if "classes" in g and g["classes"] and refs[si] is not None][-(60 if tier == "quick" else 300):]
+        for k, si in enumerate(chosen):
+            with open(os.path.join(proj, "f%03d.py" % k), "w") as f:
+                f.write(srcs[si])
+        with open(os.path.join(tmpd, "cfg.toml"), "w") as f:
+            f.write("[lcom]\nlow_threshold = 2\n")
+        rc_, data, err = C.pyscn_json(["proj"], tmpd, extra=["--select", "lcom", "--config", os.path.join(tmpd, "cfg.toml")])
+        hist["cli_classes"] = 0
+        if chosen and (data is None or not data.get("lcom")):
+            res.violation("analyze --select lcom produced no lcom section on the multi-file project: %s" % err[-300:], {"files": len(chosen)})
+        elif chosen:
+            got = {}
+            for c in data["lcom"]["Classes"] or []:
+                got[(os.path.basename(c["FilePath"]), c["StartLine"])] = c["Metrics"]["LCOM4"]
+            for k, si in enumerate(chosen):
+                for c in go[si]["classes"]:
+                    if "lcom4" not in c:
+                        continue
+                    hist["cli_classes"] += 1
+                    v = got.get(("f%03d.py" % k, c["start"]))
+                    if v != c["lcom4"]:
+                        res.violation("C14 (several files, real CLI): class %s of f%03d.py is reported with LCOM4 %s; analysed alone it has %d" % (c["name"], k, v, c["lcom4"]),
+                                      {"signature": {"kind": "multi-file"}, "source": srcs[si], "position_in_project": k, "files": len(chosen)})
+    finally:
+        shutil.rmtree(tmpd, ignore_errors=True)
     if not ps.ok and not any(fi for _, _, fi in res.violations):
         res.violation("proof obligation or tie broken: " + "; ".join(ps.broken)[:1500], {"broken": ps.broken, "note": "no class violating C14 beyond known findings was found"},
                       found_input=False)
